@@ -369,6 +369,12 @@ func (g *gen) cell(depth int, forceTh bool) *gnode {
 
 func (g *gen) row(depth int, th bool) *gnode {
 	tr := el("tr")
+	if g.r.Chance(1, 7) {
+		// a row without cells: all its positions covered by rowspans from above (kept as a row
+		// of the table since fix 72cc329) or just empty (dropped)
+		g.f("tr-empty")
+		return g.decorate(tr, 3)
+	}
 	for i := g.r.Range(1, 4); i > 0; i-- {
 		tr.kids = append(tr.kids, g.cell(depth, th))
 	}
